@@ -420,7 +420,7 @@ def run(ctx):
         check_unit(ctx, gen_unit(rng, i))
     for i in range(150 if quick else 1500):
         check_records(ctx, gen_records(rng, i))
-    for i in range(70 if quick else 700):
+    for i in range(70 if quick else 1200):
         case = ep.gen_pipeline_case(rng, i, c03_bias=True)
         ep.check_pipeline(ctx, case, SIG, do_votes=False, do_c03=True)
 
